@@ -1,7 +1,7 @@
 (* Correspondence for C31: flat SQL date calls with integer arguments and the observed result. *)
 From Coq Require Import List NArith ZArith Bool.
 Import ListNotations.
-From GMS Require Import Base.CorrLib Codec.C31Date Codec.C31Format.
+From GMS Require Import Base.CorrLib Codec.C31Date Codec.C31Format Codec.C31Parse.
 Open Scope Z_scope.
 
 (* function id, integer arguments, observed result (None = NULL; a date is [y; m; d], a number is [n]) *)
@@ -31,6 +31,15 @@ Definition model (fn : N) (args : list Z) : option (option (list Z)) :=
       match render (map Z.to_N fmt) {| yr := y; mo := m; dy := d; hh := h; mi := i; ss := s; us := u |} with
       | Some out => Some (Some (map Z.of_N out))
       | None => None
+      end
+  (* STR_TO_DATE: length of the string, its bytes, then the bytes of the format *)
+  | 12%N, n :: rest =>
+      let s := map Z.to_N (firstn (Z.to_nat n) rest) in
+      let fmt := map Z.to_N (skipn (Z.to_nat n) rest) in
+      match str_to_date s fmt with
+      | SNull => Some None
+      | SVal (y, m, d) tod => Some (Some [y; m; d; tod])
+      | SUnmodelled => None
       end
   | _, _ => None
   end.
